@@ -60,6 +60,7 @@ Mutate(c, muts) ==
     length  |-> IF "write" \in muts THEN 3 ELSE 0,
     resp    |-> IF "resp" \in muts THEN "replaced" ELSE c.resp,
     req     |-> IF "req" \in muts THEN "replaced" ELSE c.req,
+    \* "allowed": the handler edits the list of allowed methods it finds in its context (a 405 request);
     \* "delegate": the handler hands its context to ANOTHER router (other.HandleContext(c)), which dispatches on it;
     \* "query": the handler edits the url.Values it got from QueryValues() - both leave nothing behind in the model
     router  |-> c.router,
